@@ -15,7 +15,13 @@ INNERS = [('Byte', lambda g: g.randint(0, 255)), ('Int16ub', lambda g: g.randint
           ('RawCopy(Byte)', lambda g: dict(value=g.randint(0, 255)))]
 WRAPS = ['%s', 'Struct("pre"/Bytes(2), "r"/%s, "post"/Byte)', 'Prefixed(Byte, Struct("k"/Byte, "r"/%s))', 'FixedSized(12, Struct("r"/%s))',
          'Struct("h"/Int16ub, "p"/Prefixed(Int8ub, Struct("q"/Byte, "r"/%s)), "t"/Byte)', 'NullTerminated(Struct("r"/%s), term=b"\\xfe\\xfe")',
-         'Struct("h"/Byte, "x"/ProcessXor(0, Struct("r"/%s)))', 'Sequence(Byte, Byte, Byte, OffsettedEnd(-1, Struct("r"/%s)), Byte)']
+         'Struct("h"/Byte, "x"/ProcessXor(0, Struct("r"/%s)))', 'Sequence(Byte, Byte, Byte, OffsettedEnd(-1, Struct("r"/%s)), Byte)',
+         # two levels of delimited regions, the outer one starting behind a header
+         'Struct("h"/Bytes(3), "o"/Prefixed(Byte, Struct("k"/Byte, "i"/Prefixed(Byte, Struct("j"/Byte, "r"/%s)))), "t"/Byte)',
+         'Struct("h"/Bytes(5), "o"/Prefixed(Byte, Struct("i"/FixedSized(14, Struct("j"/Int16ub, "r"/%s)), "z"/GreedyBytes)))',
+         'Struct("h"/Byte, "o"/FixedSized(20, Struct("k"/Bytes(2), "i"/Prefixed(VarInt, Struct("r"/%s)))), "t"/Byte)',
+         'Sequence(Bytes(2), Prefixed(Byte, Sequence(Byte, OffsettedEnd(-1, Prefixed(Byte, Struct("r"/%s))), Byte)))',
+         'Struct("h"/Bytes(2), "o"/NullTerminated(Struct("i"/Prefixed(Byte, Struct("r"/%s))), term=b"\\xfe\\xfe"))']
 
 
 def find_raw(v):
@@ -163,7 +169,15 @@ def sha96l(d):
     return int.from_bytes(hashlib.sha256(d).digest()[:12], 'big')
 
 
-HASHES = {'sha64': ('Int64ub', 'sha64'), 'sha96l': ('BytesInteger(12, swapped=True)', 'sha96l'), 'sum8': ('Byte', 'sum8'), 'xor8': ('Byte', 'xor8'), 'crc32': ('Int32ub', 'crc32'), 'md5': ('Bytes(16)', 'md5'), 'crc32l': ('Int32ul', 'crc32')}
+def md5hex(d):
+    return hashlib.md5(d).hexdigest()
+
+
+def crc32hex(d):
+    return '%08x' % (zlib.crc32(d) & 0xffffffff)
+
+
+HASHES = {'md5hex': ('PaddedString(32, "ascii")', 'md5hex'), 'crc32hex': ('PaddedString(8, "ascii")', 'crc32hex'), 'sha64': ('Int64ub', 'sha64'), 'sha96l': ('BytesInteger(12, swapped=True)', 'sha96l'), 'sum8': ('Byte', 'sum8'), 'xor8': ('Byte', 'xor8'), 'crc32': ('Int32ub', 'crc32'), 'md5': ('Bytes(16)', 'md5'), 'crc32l': ('Int32ul', 'crc32')}
 
 
 def cks_src(body, h):
@@ -204,6 +218,10 @@ def o_checksum(src, value, fixed_layout, stale):
                 q = c.parse(bytes(bad))
             except core.ChecksumError:
                 continue
+            except core.StringError:
+                if 'String(' in src:
+                    continue                      # a text digest that no longer decodes: rejected before it can be compared
+                return 'bit %d of byte %d flipped: StringError instead of ChecksumError' % (k, i)
             except core.ConstructError as e:
                 if fixed_layout:
                     return 'bit %d of byte %d flipped: %s instead of ChecksumError' % (k, i, type(e).__name__)
@@ -222,7 +240,7 @@ def run(tier, seed):
     rng = C.rng_for(seed, 'C14')
     ns = H.namespace()
     import reify as R
-    ns.update(crc32=crc32, md5=md5, sha64=sha64, sha96l=sha96l)
+    ns.update(crc32=crc32, md5=md5, sha64=sha64, sha96l=sha96l, md5hex=md5hex, crc32hex=crc32hex)
     cases, checks = [], []
     reps = 3 if tier == 'quick' else 25
     for inner, gv in INNERS:
@@ -253,6 +271,16 @@ def run(tier, seed):
                     datas = [enc + b'\xfe\xfe\x01'] if len(enc) % 2 == 0 and b'\xfe\xfe' not in enc else []
                 elif w.startswith('Struct("h"/Byte, "x"'):
                     datas = [b'\x01' + enc]
+                elif w.startswith('Struct("h"/Bytes(3), "o"/Prefixed'):
+                    datas = [b'HHH' + bytes([len(enc) + 3, 9, len(enc) + 1, 5]) + enc + b'\x77'] if len(enc) < 250 else []
+                elif w.startswith('Struct("h"/Bytes(5), "o"/Prefixed'):
+                    datas = [b'HHHHH' + bytes([16]) + (b'\x00\x01' + enc + bytes(14))[:14] + b'zz'] if len(enc) <= 12 else []
+                elif w.startswith('Struct("h"/Byte, "o"/FixedSized(20'):
+                    datas = [b'H' + (b'kk' + bytes([len(enc)]) + enc + bytes(20))[:20] + b'\x07'] if len(enc) <= 17 else []
+                elif w.startswith('Sequence(Bytes(2), Prefixed'):
+                    datas = [b'HH' + bytes([len(enc) + 3, 1, len(enc)]) + enc + b'\x09'] if len(enc) < 250 else []
+                elif w.startswith('Struct("h"/Bytes(2), "o"/NullTerminated'):
+                    datas = [b'HH' + bytes([len(enc)]) + enc + b'\xfe\xfe'] if len(enc) % 2 == 1 and b'\xfe' not in enc and len(enc) != 254 else []
                 else:
                     datas = [b'\x01\x02\x03' + enc + b'\x07\x08']
                 for d in datas:
@@ -270,9 +298,9 @@ def run(tier, seed):
                     ('Array(2, Bytes(2))', lambda g: [G.rand_bytes(g, 2), G.rand_bytes(g, 2)], True),
                     ('PascalString(Byte, "ascii")', lambda g: g.choice(['a', 'hello']), False),
                     ('Prefixed(Byte, GreedyBytes)', lambda g: G.rand_bytes(g, g.randint(1, 4)), False), ('VarInt', lambda g: g.choice([1, 300, 70000]), False)]
-    stale = dict(sum8=1, xor8=1, crc32=12345, crc32l=12345, md5=bytes(16), sha64=12345, sha96l=12345)
+    stale = dict(sum8=1, xor8=1, crc32=12345, crc32l=12345, md5=bytes(16), sha64=12345, sha96l=12345, md5hex='0' * 32, crc32hex='0' * 8)
     for body, gv, fixed in fixed_bodies:
-        for h in (['sum8', 'xor8', 'crc32', 'md5', 'crc32l', 'sha64', 'sha96l'] if tier == 'thorough' else ['sum8', 'crc32', 'md5', 'xor8', 'sha64', 'sha96l']):
+        for h in (['sum8', 'xor8', 'crc32', 'md5', 'crc32l', 'sha64', 'sha96l', 'md5hex', 'crc32hex'] if tier == 'thorough' else ['sum8', 'crc32', 'md5', 'xor8', 'sha64', 'sha96l', 'md5hex', 'crc32hex']):
             src = cks_src(body, h)
             for _ in range(2 if tier == 'quick' else 10):
                 v = gv(rng)
@@ -307,5 +335,5 @@ def run(tier, seed):
 
 def replay(payload):
     ns = H.namespace()
-    ns.update(crc32=crc32, md5=md5, sha64=sha64, sha96l=sha96l)
+    ns.update(crc32=crc32, md5=md5, sha64=sha64, sha96l=sha96l, md5hex=md5hex, crc32hex=crc32hex)
     return C.generic_replay(payload)
